@@ -5,6 +5,7 @@ import (
 	"encoding/hex"
 	"encoding/json"
 	"fmt"
+	"math"
 	"math/big"
 
 	"github.com/ethereum/go-ethereum/common"
@@ -54,6 +55,11 @@ func (m ClientState) GetLatestHeight() exported.Height {
 }
 
 func (m ClientState) Validate() error {
+	// expiry is computed as timestamp + trusting period in uint64: a period near 2^64 wraps around
+	// and the client would be expired from the block that creates it
+	if m.TrustingPeriod > math.MaxInt64 {
+		return sdkerrors.Wrapf(sdkerrors.ErrInvalidRequest, "trusting period %d is too large", m.TrustingPeriod)
+	}
 	return m.Header.ValidateBasic()
 }
 
